@@ -83,6 +83,7 @@ def spec (op : String) : String :=
   | ["entropy", m] => showB (entropyFromMnemonic sha256 (h m))
   | ["validate", m] => showU (validateMnemonic sha256 (h m))
   | ["seed", m, _, pn] => showB (newSeed sha256 pbkdf2HmacSha512 (h m) (h pn))
+  | ["seednfkd", m, _, pn] => showB (newSeed sha256 pbkdf2HmacSha512 (h m) (h pn))
   | ["vec39", e, m, sd] =>
     if showB (newMnemonic sha256 (h e)) != "ok " ++ m then "specification: mnemonic differs from the published vector"
     else if showB (entropyFromMnemonic sha256 (h m)) != "ok " ++ e then "specification: entropy differs from the published vector"
